@@ -234,14 +234,16 @@ class Session:
 
     def bad_item(self, kind):
         t = self.cfg.tail
+        self.nbadrows = getattr(self, 'nbadrows', self.cfg.rowbytes) + 1
+        r = [1, 2, 0][self.nbadrows % 3]      # incompatible subarrays also come without rows
         if kind == 'atom':
             if t == ():
-                return np.ones((1, 2), dtype=self.cfg.numtype)
-            return np.ones((1,) + t[:-1] + (t[-1] + 1,), dtype=self.cfg.numtype)
+                return np.ones((r, 2), dtype=self.cfg.numtype)
+            return np.ones((r,) + t[:-1] + (t[-1] + 1,), dtype=self.cfg.numtype)
         if kind == 'rank':
             if t == ():
-                return np.ones((1, 1, 1), dtype=self.cfg.numtype)
-            return np.ones((2,) + t + (1,), dtype=self.cfg.numtype)
+                return np.ones((r, 1, 1), dtype=self.cfg.numtype)
+            return np.ones((max(r, 1),) + t + (1,), dtype=self.cfg.numtype)
         if kind == 'conv':
             return ['not a number'] if t == () else 'abc'
         raise ValueError(kind)
